@@ -519,6 +519,16 @@ func checkC14(c *Ctx) {
 	// ---------------- R6
 	checkReplicaAttach(c, "R6")
 	checkReadBufferAlias(c, "R7")
+	c.Rule("R9", "the master a write reaches is the owner of the key's slot: the key->slot function is the Redis Cluster one (the C12 obligations O1-O5 re-evaluated: CRC table and step, fold, hash-tag decision tree, routing index)")
+	{
+		exh, had := c.Extra["exhaustive"]
+		c.withAlias(map[string]string{"O1": "R9", "O2": "R9", "O3": "R9", "O4": "R9", "O5": "R9"}, func() { checkC12(c) })
+		if had {
+			c.Extra["exhaustive"] = exh
+		} else {
+			delete(c.Extra, "exhaustive")
+		}
+	}
 	checkSlotFill(c, "R6")
 	c.Expect("R6", 3)
 }
